@@ -103,6 +103,7 @@ struct Exec {
   struct PurEntry {
     Bits first;      // result bits
     int second = 0;  // step of the first evaluation
+    uint64_t serial = 0;  // instance that evaluated first
     bool stale = false;  // the evaluating instance had returned these very bits for the same evaluator and arguments
                          // under OTHER parameter values before: if the entry later turns out wrong, that is evidence
                          // that the evaluator did not use the values last set (C11)
@@ -369,7 +370,19 @@ struct Exec {
       if (!contains(co.out, "MASA FATAL ERROR"))
         viol("C16", std::string("C16.message.") + kind, what, "abort without a 'MASA FATAL ERROR' line on stdout");
     }
-    if (kExcBuild && !stop) audit("C16", std::string("C16.state.") + kind);
+    if (kExcBuild && !stop) {
+      size_t before = viols.size();
+      audit("C16", std::string("C16.state.") + kind);
+      // what the audit reads back is also what C12 promises: the registered handles, the selection, every parameter
+      orc_eval("C12");
+      for (size_t i = before, n = viols.size(); i < n; ++i) {
+        Violation v = viols[i];
+        if (v.prop != "C16") continue;
+        v.prop = "C12";
+        v.oracle = "C12.after_failed_call." + v.oracle.substr(10);
+        viols.push_back(v);
+      }
+    }
   }
 
   // ------------------------------------------------------------------ discovery after a successful init
@@ -411,6 +424,19 @@ struct Exec {
         return;
       }
       if (raw != sol.name) orc_eval("C13");
+      if (viaC) {
+        char buf[256];
+        memset(buf, 0, sizeof buf);
+        strcpy(buf, "caller-buffer-caller-buffer-caller-buffer-caller-buffer");
+        CallOut cc = call(false, [&] { ::masa_get_name(buf); });
+        if (unexpected(cc, "C14", "get_name")) return;
+        buf[255] = 0;
+        orc_eval("C17");
+        if (sol.name != buf) {
+          viol("C17", "C17.get_name", "masa_get_name", std::string("caller's buffer holds \"") + buf + "\" but the solution name is " + sol.name);
+          viol("C14", "C14.init.name.c_api", sol.name, std::string("after the C masa_init, the C masa_get_name returns \"") + buf + "\"");
+        }
+      }
       if (dim != sol.dim)
         viol("C14", "C14.init.dim", sol.name, "masa_get_dimension returns " + std::to_string(dim) + ", documented " + std::to_string(sol.dim));
     }
@@ -657,10 +683,7 @@ void Exec::do_eval(const Step& st, const Client& cl, int ev, int depth) {
   a.k = st.k;
   const bool iscb = !strcmp(E.sig, "cb");
   const bool hasC = E.cname[0] != 0;
-  if (!strcmp(E.sig, "i")) {
-    if (a.k < 0) a.k = -a.k;
-    a.k %= 9;  // moment orders 0..8 (negative orders are outside the documented domain)
-  }
+  const bool intsig = !strcmp(E.sig, "i");
   auto prim = [&](bool viaC) -> S {
     if (viaC && hasC) {
       EvalArgs<double> ad;
@@ -681,6 +704,15 @@ void Exec::do_eval(const Step& st, const Client& cl, int ev, int depth) {
     return;
   }
   const bool supported = sol.caps[ev] != 0;
+  if (intsig) {
+    if (supported) {
+      if (a.k < 0) a.k = -a.k;
+      a.k %= 9;  // moment orders 0..8: negative orders are outside the documented domain of a provided evaluator
+    } else {
+      static const int wildk[] = {0, 1, 2, -1, -2, 7, -100, 2147483647, -2147483647 - 1, 40};
+      a.k = wildk[(size_t)((st.k < 0 ? -st.k : st.k) + (int)(st.u % 10)) % 10];  // "at arbitrary arguments"
+    }
+  }
   if (supported && !inst.evaluable()) {
     ++skipped;
     return;
@@ -778,11 +810,18 @@ void Exec::do_eval(const Step& st, const Client& cl, int ev, int depth) {
     pe.first = rb;
     pe.second = stepno;
     pe.stale = stale;
+    pe.serial = inst2.serial;
     purity[key] = pe;
   } else if (it->second.first != rb) {
     viol("C10", "C10.purity", sol.name + ":" + E.shortname + "/" + E.sig,
          "evaluation returns " + fmt_ld(r) + " [" + fmt_bits(rb) + "] but the same solution, parameters and arguments gave [" +
              fmt_bits(it->second.first) + "] at step " + std::to_string(it->second.second));
+    if (it->second.serial != inst2.serial) {
+      // two INSTANCES holding the same values disagree: something is shared between handles, or one of them is stale
+      orc_eval("C12");
+      viol("C12", "C12.twin", sol.name + ":" + E.shortname + "/" + E.sig,
+           "two handles of " + sol.name + " holding identical parameter values return different bits for the same call: the instances are not independent");
+    }
     if (stale || it->second.stale)
       viol("C11", "C11.lastset.stale", sol.name + ":" + E.shortname + "/" + E.sig,
            "an instance kept returning the bits it had returned before its parameters were changed, while an instance holding the same values "
